@@ -153,7 +153,7 @@ theorem laws (α : Type) [DecidableEq α] (ts : List Rat) (ms : List (Kind × Op
   addOut_spec := fun h o b hv _ => by
     obtain ⟨_, e1, e2, e3, e4, hp, he⟩ := addFull_spec h o b
     have hv' := (valid_iff h o).mp hv
-    refine ⟨fun r hr => ⟨(hp r hr).1, (hp r hr).2, ?_⟩, fun r hr => ?_⟩
+    refine ⟨fun r hr => ⟨Or.inl (hp r hr).1, (hp r hr).2, ?_⟩, fun r hr => ?_⟩
     · have h1 := (hp r hr).1
       show r ∉ (⟨[_, _, _], [_]⟩ : Footprint).refs
       simp only [Footprint.refs, List.mem_append, List.mem_cons, List.not_mem_nil, or_false]
